@@ -1,7 +1,7 @@
 (* Extraction of the executable models to OCaml.  ExtrOcamlBasic only: bool, option, list,
    prod, unit, sumbool are mapped to OCaml's; N, positive, nat, Z stay the extracted datatypes. *)
 Require Import ExtrOcamlBasic.
-From SKV Require Import Params Base.Crc32 Codec.Wal Codec.WalInst Base.Lex Txn.WriteSet Spec.Store Spec.Cursor Spec.Machine Lsm.CompactKey Misc.Lock Misc.LockInst Txn.RangeIter Conc.Oracle Conc.CommitSeq.
+From SKV Require Import Params Base.Crc32 Codec.Wal Codec.WalInst Base.Lex Txn.WriteSet Spec.Store Spec.Cursor Spec.Machine Lsm.CompactKey Misc.Lock Misc.LockInst Txn.RangeIter Conc.Oracle Conc.CommitSeq Misc.OMap Misc.BptKey Misc.Pages Misc.BptInst.
 Extraction Language OCaml.
 Extraction "skv_model.ml"
   WalInst.wal_sessions WalInst.wal_read_all WalInst.wal_repair WalInst.wal_known_unparsed_tail WalInst.wal_params_ok WalInst.WB
@@ -11,4 +11,10 @@ Extraction "skv_model.ml"
   Lock.do_open Lock.do_close Lock.do_drop Lock.do_drop_detached Lock.do_runtime_gone Lock.do_commit Lock.do_kill Lock.s0 Lock.pc_of LockInst.current
   RangeIter.ri_init RangeIter.ri_step RangeIter.ri_get RangeIter.restrict RangeIter.ri_run_bounded
   Oracle.o_new Oracle.check Oracle.publish Oracle.rollback Oracle.reset_for_restore Oracle.observe_key
-  CommitSeq.c0 CommitSeq.cs_step Params.ORACLE_GC_INTERVAL.
+  CommitSeq.c0 CommitSeq.cs_step Params.ORACLE_GC_INTERVAL
+  Lex.lex_cmp BptKey.ts_cmp BptKey.bpt_range BptKey.bpt_range_known
+  OMap.om_get OMap.om_insert OMap.om_delete OMap.om_range_spec OMap.om_cursor_fwd OMap.om_cursor_bwd OMap.om_sortedb
+  Pages.t_page Pages.t_stack Pages.p_total Pages.p_count Pages.p_chain Pages.p_head
+  BptInst.bpt_init BptInst.bpt_alloc BptInst.bpt_free BptInst.bpt_leaf_ovf_pages BptInst.bpt_params_ok
+  Params.BPT_PAGE_SIZE Params.BPT_TRUNK_MAX_ENTRIES Params.BPT_OVERFLOW_CAP Params.BPT_LEAF_MIN_LOCAL Params.BPT_LEAF_MAX_LOCAL
+  Params.BPT_INT_MIN_LOCAL Params.BPT_INT_MAX_LOCAL.
